@@ -3,7 +3,7 @@
 # digests and choice lists must be identical across fresh interpreters, hash
 # seeds and worker counts. usage: tools/selftest_determinism.sh [runs=1500] [props...]
 cd "$(dirname "$0")/.."
-N=${1:-1500}; shift 2>/dev/null
+N=${1:-1500}; [ $# -gt 0 ] && shift
 PROPS=${*:-C01 C03 C04 C05 C07 C12 C13 C14 C16 C17 C18 C19}
 D=$(mktemp -d /tmp/detsim-selftest-XXXXXX)
 rc=0
